@@ -582,15 +582,16 @@ theorem unify_sound_aux (rules : Rules) (hr : rules.unionArg = .everyVariant) (c
              if e ≠ a then some ((unionIds T [e, a]).1, some (b.insert x (unionIds T [e, a]).2))
              else some (T, some b)
            | none =>
-             if T.types[a]? = some (.variable x) then some (T, some b)
+             if rules.scope = .sharedNames ∧ T.types[a]? = some (.variable x) then some (T, some b)
              else some (T, some (b.insert x a))) := by
-        cases ta <;> simp at ha <;> rfl
+        cases hsc : rules.scope <;> cases ta <;> simp at ha <;>
+          (simp [unifyStep, hsc]; try (cases b.get x <;> rfl))
       rw [key] at h
       cases hbx : b.get x with
       | none =>
         rw [hbx] at h
-        have hne : ¬ (T.types[a]? = some (.variable x)) := by
-          rw [hta]; intro e; cases e; simp at ha
+        have hne : ¬ (rules.scope = .sharedNames ∧ T.types[a]? = some (.variable x)) := by
+          rw [hta]; rintro ⟨_, e⟩; cases e; simp at ha
         simp only [hne, if_false, Option.some.injEq, Prod.mk.injEq] at h
         obtain ⟨rfl, rfl⟩ := h
         exact bind_fresh hb hbx htp ha0
@@ -658,9 +659,11 @@ theorem unify_sound_aux (rules : Rules) (hr : rules.unionArg = .everyVariant) (c
         rw [ht1] at hp; rw [ht2] at ha
         simp only at hp ha
         unfold unifyStep at h
-        by_cases hi : i1 = i2
-        · subst hi
-          simp only [if_true, Option.some.injEq, Prod.mk.injEq] at h
+        by_cases hc : i1 = i2 ∧ (rules.scope = .sharedNames ∨ containsVariables T cf p = some false)
+        · simp only [if_pos hc] at h
+          obtain ⟨hi, _⟩ := hc
+          subst hi
+          simp only [Option.some.injEq, Prod.mk.injEq] at h
           obtain ⟨rfl, rfl⟩ := h
           rw [ht1] at ht2; cases ht2
           refine ⟨Ext.refl _, hb, BLe.refl' (Ext.refl _) hb, fun v hv => ?_⟩
@@ -676,7 +679,7 @@ theorem unify_sound_aux (rules : Rules) (hr : rules.unionArg = .everyVariant) (c
             | succ fu =>
               unfold inhB at hfu ⊢
               rw [hta] at hfu; rw [htp]; exact hfu)
-        · simp only [hi, if_false] at h
+        · simp only [if_neg hc] at h
           rw [ht1, ht2] at h
           simp only at h
           by_cases hn : info1.name = info2.name
